@@ -185,6 +185,8 @@ class Unit:
             for n, fields in idx.structs.items():
                 if n not in self.fi.structs:
                     self.fi.structs[n] = fields; self.struct_src[n] = "trusted view declared in translate/x_fn.py"
+            for n, vs in idx.enums.items():      # (b0507) unit-variant enums of other crates (`bitcoin::Network`)
+                self.fi.enums.setdefault(n, vs)
         for r in struct_files:      # struct declarations of other files, used as local structures
             idx = index_of(r)
             for n, fields in idx.structs.items():
@@ -2080,6 +2082,10 @@ class FnTranslator:
             if v == "None":
                 if want is not None and want[0] == "opt": return "none", want
                 return "none", ("opt", ("unknown",))
+            if v in self.u.externals and not self.u.externals[v].get("params"):
+                # (b0507) a constant of another file whose value is outside the subset: declared external without parameters
+                term, t, _k = self.call_external(v, [], env, pre)
+                return term, t
             c = self.u.const_value(v, self.local_consts)
             if c is not None:
                 if c[0] == "expr":
@@ -2113,6 +2119,11 @@ class FnTranslator:
                 self.check_ty(t, c[2], "constant " + segs[1])
                 return "(%s : %s)" % (term, self.u.lt(t)), t
             if c is not None: return self.lit(c[0], c[1]), c[1]
+        if "::".join(segs) in self.u.externals and not self.u.externals["::".join(segs)].get("params"):
+            # (b0507) an associated constant of a type of another file / crate (`VelocityControlSpec::UNLIMITED`): declared
+            # external without parameters
+            term, t, _k = self.call_external("::".join(segs), [], env, pre)
+            return term, t
         raise RsError("path %s is outside the subset" % "::".join(segs))
 
     def unary(self, e, env, pre, want):
